@@ -18,6 +18,10 @@ def claim(pid, technique, text):
 def na(pid, reason):
     NOT_APPLICABLE[pid] = reason
 
+def extend(pid, more_technique, more_text=""):
+    t, x = CLAIMED[pid]
+    CLAIMED[pid] = (t + "; " + more_technique, (x + " " + more_text).strip())
+
 exec(open(os.path.join(HERE, "tools", "claims.py")).read())
 
 checks = []
@@ -29,7 +33,7 @@ for pid in sorted(CLAIMED):
         "thorough_cmd": f"./check.sh {pid} thorough",
         "evidence_file": f"evidence/{pid}.json",
         "engine": "ketosa",
-        "level_claimed": {"category": "other", "text": text, "design_ref": f"DESIGN.md §4 {pid}"},
+        "level_claimed": {"category": "other", "text": text, "design_ref": f"DESIGN.md §4 {pid}, §9.8"},
         "level_note": TRUST,
         "technique": technique,
     })
